@@ -386,7 +386,7 @@ MATCHERS = {"smc_concatenate_drops_beta_evidence": m_smc_concat,
 
 
 def run(chk: core.Check):
-    n_cases = 540 if chk.tier == "quick" else 20000
+    n_cases = 540 if chk.tier == "quick" else 8100
     r = np.random.default_rng(chk.seed + 16_016)
     chk.rule = ("random op sequences (index array incl. negative spellings / int / slice / mask / mask-partition+concatenate / "
                 "3-slice partition+concatenate / pickle / flat and nested dict round trip) on class x namespace x width x "
